@@ -59,6 +59,61 @@ def unbits(b):
     return struct.unpack(">d", struct.pack(">Q", b))[0]
 
 
+class Inconclusive(Exception):
+    """a model or implementation run hit a timeout / was killed for resources: nothing was decided"""
+
+
+RESOURCE_RC = (124, 137, -9, -15, 143)
+MODEL_PAR = 8            # nsmodel processes at a time
+MODEL_CHUNK = 50000      # cases per nsmodel call
+
+
+def deadline_of(env):
+    return getattr(env, "c01_deadline", None)
+
+
+def out_of_time(env):
+    d = deadline_of(env)
+    return d is not None and time.time() > d
+
+
+def merge_extra(res, name, new):
+    """adds the statistics of one batch to extra[name] (numbers add up, dicts merge recursively)"""
+    def merge(a, b):
+        for k, v in b.items():
+            if isinstance(v, bool) or isinstance(v, str):
+                a[k] = v
+            elif isinstance(v, (int, float)):
+                a[k] = a.get(k, 0) + v
+            elif isinstance(v, dict):
+                a[k] = merge(a.get(k, {}), v)
+            else:
+                a.setdefault(k, v)
+        return a
+    res["extra"][name] = merge(res["extra"].get(name, {}), new)
+
+
+def batched(env, res, name, fn, planned, batch):
+    """thorough tier: generate and check `planned` cases in batches until the stream's time budget is used"""
+    done, first = 0, True
+    while done < planned:
+        if not first and out_of_time(env):
+            break
+        k = min(batch, planned - done)
+        fn(env, res, None, k, first)
+        done += k
+        first = False
+    merge_extra(res, name, {"generated_planned": planned, "generated_done": done})
+
+
+def note_inconclusive(res, stream, what, n=1):
+    inc = res["extra"].setdefault("inconclusive", {})
+    e = inc.setdefault(stream, {"cases": 0, "reasons": []})
+    e["cases"] += n
+    if len(e["reasons"]) < 10 and what not in e["reasons"]:
+        e["reasons"].append(what)
+
+
 def run_parallel(cmds, timeout):
     """runs the command lines concurrently; returns list of (rc, output)"""
     procs = [subprocess.Popen(c, stdout=subprocess.PIPE, stderr=subprocess.STDOUT) for c in cmds]
@@ -70,46 +125,71 @@ def run_parallel(cmds, timeout):
             res.append((p.returncode, out.decode("utf-8", "replace")))
         except subprocess.TimeoutExpired:
             p.kill()
+            try:
+                p.communicate(timeout=10)
+            except Exception:
+                pass
             res.append((124, "[timeout]"))
     return res
 
 
-def model_lines(env, name, mode, lines, timeout=900, nproc=NPROC):
-    """`nsmodel <mode>` over `lines` (one result line per input line), dealt round-robin to nproc
-    processes (expensive cases cluster by operation) and put back in order."""
+def model_lines(env, name, mode, lines, timeout=600, nproc=MODEL_PAR, chunk=MODEL_CHUNK):
+    """`nsmodel <mode>` over `lines` (one result line per input line) in chunks of at most `chunk`
+    cases, `nproc` processes at a time.  A chunk that times out (or is killed) is retried once
+    alone; if that fails too its cases are inconclusive: their result is None.  Any other
+    failure of the model executable is an error (RuntimeError)."""
     n = len(lines)
+    res = [None] * n
     if n == 0:
-        return []
-    k = max(1, min(nproc, n // 200 + 1))
-    cmds, outs = [], []
-    for i in range(k):
-        part = lines[i::k]
-        inp = os.path.join(env.work, "%s.%d.min" % (name, i))
-        outp = os.path.join(env.work, "%s.%d.mout" % (name, i))
-        open(inp, "w").write("\n".join(part) + "\n")
+        return res
+    size = min(chunk, max(200, (n + nproc - 1) // nproc))
+    spans = [(a, min(n, a + size)) for a in range(0, n, size)]
+
+    def job(k, a, b, tag):
+        inp = os.path.join(env.work, "%s.%s%d.min" % (name, tag, k))
+        outp = os.path.join(env.work, "%s.%s%d.mout" % (name, tag, k))
+        open(inp, "w").write("\n".join(lines[a:b]) + "\n")
         if os.path.exists(outp):
             os.remove(outp)
-        cmds.append([common.NSMODEL, mode, inp, outp])
-        outs.append((outp, len(part)))
-    rs = run_parallel(cmds, timeout)
-    res = [None] * n
-    for i, ((rc, out), (outp, cnt)) in enumerate(zip(rs, outs)):
+        return [common.NSMODEL, mode, inp, outp], outp
+
+    def collect(a, b, rc, out, outp):
+        if rc in RESOURCE_RC:
+            return False
         if rc != 0 or not os.path.exists(outp):
             raise RuntimeError("nsmodel %s failed (rc=%s): %s" % (mode, rc, out[-400:]))
         got = open(outp).read().splitlines()
-        if len(got) != cnt:
-            raise RuntimeError("nsmodel %s: %d result lines for %d cases" % (mode, len(got), cnt))
-        res[i::k] = got
+        if len(got) != b - a:
+            raise RuntimeError("nsmodel %s: %d result lines for %d cases" % (mode, len(got), b - a))
+        res[a:b] = got
+        return True
+
+    retry = []
+    for w in range(0, len(spans), nproc):
+        wave = spans[w:w + nproc]
+        jobs = [job(w + k, a, b, "c") for k, (a, b) in enumerate(wave)]
+        rs = run_parallel([jb[0] for jb in jobs], timeout)
+        for (a, b), (cmd, outp), (rc, out) in zip(wave, jobs, rs):
+            if not collect(a, b, rc, out, outp):
+                retry.append((a, b))
+    for k, (a, b) in enumerate(retry):
+        if out_of_time(env):
+            break
+        cmd, outp = job(k, a, b, "r")
+        (rc, out), = run_parallel([cmd], timeout)
+        collect(a, b, rc, out, outp)
     return res
 
 
-def impl_lines(env, name, mode, lines, timeout=600):
+def impl_lines(env, name, mode, lines, timeout=900):
     inp = os.path.join(env.work, name + ".iin")
     outp = os.path.join(env.work, name + ".iout")
     open(inp, "w").write("\n".join(lines) + "\n")
     if os.path.exists(outp):
         os.remove(outp)
     rc, out = common.sh([common.harness_bin(), mode, inp, outp], timeout=timeout)
+    if rc in RESOURCE_RC:
+        raise Inconclusive("nsverif %s: timeout/killed (rc=%s) on %d cases" % (mode, rc, len(lines)))
     if rc != 0 or not os.path.exists(outp):
         raise RuntimeError("nsverif %s failed (rc=%s): %s" % (mode, rc, out[-400:]))
     return open(outp).read().splitlines()
@@ -173,26 +253,27 @@ def f64_patterns(env):
     for s in DEC_LITERALS:
         pats.add(bits(float(s)))
         pats.add(bits(-float(s)))
+    core = set(pats)
     for _ in range(400 if quick else 20000):
         s = "%d.%s" % (r.randrange(100000), "".join(r.choice("0123456789") for _ in range(r.randint(1, 17))))
         pats.add(bits(float(s)))
     for _ in range(200 if quick else 5000):
         pats.add(bits(float("%d" % r.randrange(10 ** r.randint(1, 22)))))
     # random patterns, random moderate patterns
-    for _ in range(14000 if quick else 700000):
+    for _ in range(14000 if quick else 650000):
         pats.add(r.getrandbits(64))
-    for _ in range(6000 if quick else 300000):
+    for _ in range(6000 if quick else 330000):
         e = 1023 + r.randint(-140, 140)
         pats.add((r.getrandbits(1) << 63) | (e << 52) | r.getrandbits(52))
     allp = sorted(pats)
     moderate = [b for b in allp if 1023 - 140 <= ((b >> 52) & 0x7ff) <= 1023 + 140]
-    return allp, moderate
+    return allp, moderate, core
 
 
 def stream_f64(env, res):
     r = env.rng
     quick = env.tier == "quick"
-    allp, moderate = f64_patterns(env)
+    allp, moderate, core = f64_patterns(env)
     eps = langrun.eps_hex()
     lines = []
     for b in allp:
@@ -209,7 +290,7 @@ def stream_f64(env, res):
         if (b & ((1 << 52) - 1)) in (0, 1, (1 << 52) - 1):
             fm.add(b)
     ext = [b for b in allp if b not in fm]
-    fm.update(r.sample(ext, min(len(ext), 250 if quick else 12000)))
+    fm.update(r.sample(ext, min(len(ext), 250 if quick else 6000)))
     for b in sorted(fm):
         lines.append("fmt %016x" % b)
     # binary operations
@@ -245,25 +326,61 @@ def stream_f64(env, res):
     for _ in range(300 if quick else 20000):
         v = r.randrange(2 ** r.randint(1, 80))
         lines.append("ofz %s%x" % (r.choice(["", "-"]), v))
-    li = impl_lines(env, "f64", "f64", lines)
-    lm = model_lines(env, "f64", "c01f64", lines, timeout=3000)
-    if len(li) != len(lines) or len(lm) != len(lines):
-        res["disagreements"].append({"stream": "f64", "what": "line count", "impl": len(li), "model": len(lm), "cases": len(lines)})
-        return
-    hist = {}
-    bad = 0
-    for c, a, b in zip(lines, li, lm):
-        op = c.split()[0]
-        hist[op] = hist.get(op, 0) + 1
-        if a != b:
-            bad += 1
-            if bad <= 20:
-                res["disagreements"].append({"stream": "f64", "case": c, "impl": a, "model": b})
-    res["evaluations"] += len(lines)
-    res["distinct_nontrivial"] += len(set(lines))
-    res["extra"]["f64"] = {"cases": len(lines), "bit_patterns": len(allp), "moderate_exponent_patterns": len(moderate),
+    # order: the lines about the systematic patterns (boundaries, subnormals, specials, integers, halves,
+    # decimal literals) first, the random bulk after; both shuffled (expensive operations cluster
+    # otherwise), so that whatever prefix the time budget allows is a fair sample
+    import random as _random
+    sh = _random.Random(env.seed * 7919 + 1)
+    corehex = set("%016x" % b for b in core)
+    first = [l for l in lines if all(t in corehex for t in l.split()[1:] if len(t) == 16) or l.startswith(("ofz", "eqeps"))]
+    fs = set(first)
+    rest = [l for l in lines if l not in fs]
+    sh.shuffle(first)
+    sh.shuffle(rest)
+    lines = first + rest
+    planned = len(lines)
+    batch = planned if quick else 400000
+    hist, done_lines, bad, inconclusive = {}, [], 0, 0
+    sample = None
+    for s0 in range(0, planned, batch):
+        if s0 > 0 and out_of_time(env):
+            break
+        part = lines[s0:s0 + batch]
+        try:
+            li = impl_lines(env, "f64", "f64", part)
+        except Inconclusive as ex:
+            note_inconclusive(res, "f64", str(ex), len(part))
+            inconclusive += len(part)
+            continue
+        lm = model_lines(env, "f64", "c01f64", part, timeout=600 if quick else 420)
+        if len(li) != len(part):
+            res["disagreements"].append({"stream": "f64", "what": "line count", "impl": len(li), "cases": len(part)})
+            continue
+        for c, a, b in zip(part, li, lm):
+            if b is None:
+                inconclusive += 1
+                continue
+            op = c.split()[0]
+            hist[op] = hist.get(op, 0) + 1
+            if a != b:
+                bad += 1
+                if bad <= 20:
+                    res["disagreements"].append({"stream": "f64", "case": c, "impl": a, "model": b})
+        done_lines.append(len(part))
+        sample = sample or {"stream": "f64", "case": part[len(part) // 2], "impl": li[len(part) // 2]}
+    done = sum(hist.values())
+    if inconclusive:
+        note_inconclusive(res, "f64", "model chunk timed out twice / implementation batch timed out", 0)
+        res["extra"]["inconclusive"]["f64"]["cases"] = inconclusive
+    res["evaluations"] += done
+    res["distinct_nontrivial"] += done
+    donepats = set(t for l in lines[:sum(done_lines)] for t in l.split()[1:] if len(t) == 16)
+    res["extra"]["f64"] = {"planned_cases": planned, "cases": done, "inconclusive_cases": inconclusive,
+                           "bit_patterns_planned": len(allp), "bit_patterns_done": len(donepats),
+                           "systematic_patterns": len(core), "moderate_exponent_patterns": len(moderate),
                            "fmt_cases": hist.get("fmt", 0), "per_op": hist, "differences": bad, "eps_bits": eps}
-    res["samples"].append({"stream": "f64", "case": lines[len(lines) // 2], "impl": li[len(lines) // 2]})
+    if sample:
+        res["samples"].append(sample)
 
 
 # ----------------------------------------------------------------------------------------------
@@ -286,6 +403,8 @@ def frontend_tokens(env, name, sources):
     if os.path.exists(outp):
         os.remove(outp)
     rc, out = common.sh([common.harness_bin(), "frontend", inp, outp], timeout=900)
+    if rc in RESOURCE_RC:
+        raise Inconclusive("nsverif frontend: timeout/killed (rc=%s) on %d sources" % (rc, len(sources)))
     if rc != 0:
         raise RuntimeError("nsverif frontend failed: %s" % out[-400:])
     res = [None] * len(sources)
@@ -589,10 +708,12 @@ def model_token(tok):
     return "K:" + kind
 
 
-def stream_pratt(env, res, only=None):
+def stream_pratt(env, res, only=None, n_override=None, fixed=True):
+    if only is None and n_override is None and env.tier != "quick":
+        return batched(env, res, "pratt", stream_pratt, 60000, 10000)
     r = env.rng
     quick = env.tier == "quick"
-    n = 1500 if quick else 60000
+    n = 1500 if n_override is None else n_override
     cases = []
     if only is not None:
         n = 0
@@ -607,7 +728,7 @@ def stream_pratt(env, res, only=None):
         src = txt if bare else "make v get " + txt
         cases.append({"id": "p%d" % i, "src": src + "\n", "want": tree_str(strip3(e)), "bare": bool(bare), "ops": g.ops})
     # fixed corpus: the documented examples of precedence-sensitive text
-    for j, (src, want) in enumerate(PRATT_CORPUS if only is None else []):
+    for j, (src, want) in enumerate(PRATT_CORPUS if (only is None and fixed) else []):
         cases.append({"id": "c%d" % j, "src": src + "\n", "want": want, "bare": False, "ops": {"corpus", "x", "y"}})
     toks = frontend_tokens(env, "pratt", [c["src"] for c in cases])
     recs = langrun.run_impl(env, "pratt", [(c["id"], c["src"]) for c in cases], cfgs=[])
@@ -626,6 +747,8 @@ def stream_pratt(env, res, only=None):
         outp = os.path.join(env.work, "pratt.mout")
         open(inp, "w").write("\n".join(mlines) + "\n")
         rc, out = common.sh([common.NSMODEL, "pratt", inp, outp], timeout=900)
+        if rc in RESOURCE_RC:
+            raise Inconclusive("nsmodel pratt: timeout/killed (rc=%s) on %d cases" % (rc, len(cases)))
         if rc != 0:
             raise RuntimeError("nsmodel pratt failed: %s" % out[-400:])
         cur = None
@@ -663,8 +786,8 @@ def stream_pratt(env, res, only=None):
         if len(c["ops"]) >= 3:
             nontrivial.add(common.chash(c["want"]))
     res["distinct_nontrivial"] += len(nontrivial)
-    res["extra"]["pratt"] = {"cases": len(cases), "distinct_trees_with_3_or_more_operator_kinds": len(nontrivial),
-                             "bare_identifier_statements": sum(1 for c in cases if c["bare"])}
+    merge_extra(res, "pratt", {"cases": len(cases), "distinct_trees_with_3_or_more_operator_kinds": len(nontrivial),
+                               "bare_identifier_statements": sum(1 for c in cases if c["bare"])})
     if cases:
         res["samples"].append({"stream": "pratt", "case": cases[0]["src"], "tree": cases[0]["want"]})
 
@@ -726,14 +849,16 @@ def template_key(owned, content):
     return "template-reading:" + common.chash(content.hex())
 
 
-def stream_template(env, res, only=None):
+def stream_template(env, res, only=None, n_override=None, fixed=True):
+    if only is None and n_override is None and env.tier != "quick":
+        return batched(env, res, "template", stream_template, 40000, 8000)
     r = env.rng
     quick = env.tier == "quick"
-    n = 1200 if quick else 40000
+    n = 1200 if n_override is None else n_override
     lits = []
     if only is not None:
         n = 0
-    for raw in (TPL_CORPUS if only is None else []):
+    for raw in (TPL_CORPUS if (only is None and fixed) else []):
         lits.append(('"', raw))
     for i in range(n):
         q = '"' if r.random() < 0.8 else "'"
@@ -767,7 +892,12 @@ def stream_template(env, res, only=None):
         c["tok"] = (strs[1][3], strs[1][4])
         mlines.append("%d %s" % (1 if strs[1][3] else 0, hx(strs[1][4])))
         idx.append(c)
-    mout = model_lines(env, "tpl", "template", mlines, nproc=1)
+    mout = model_lines(env, "tpl", "template", mlines)
+    lost = sum(1 for x in mout if x is None)
+    if lost:
+        note_inconclusive(res, "template", "model chunk timed out twice", lost)
+        keep = [(c, ml) for c, ml in zip(idx, mout) if ml is not None]
+        idx, mout = [c for c, _ in keep], [ml for _, ml in keep]
     if len(mout) != len(idx):
         res["disagreements"].append({"stream": "template", "what": "line count", "model": len(mout), "cases": len(idx)})
         return
@@ -805,7 +935,7 @@ def stream_template(env, res, only=None):
         if b"{" in content or b"}" in content:
             nontrivial.add(common.chash(hx(content) + str(owned)))
     res["distinct_nontrivial"] += len(nontrivial)
-    res["extra"]["template"] = dict(stats, cases=len(idx), distinct_literals_with_braces=len(nontrivial))
+    merge_extra(res, "template", dict(stats, cases=len(idx), distinct_literals_with_braces=len(nontrivial)))
     if idx:
         res["samples"].append({"stream": "template", "case": idx[0]["src"], "model": mout[0]})
 
@@ -1059,25 +1189,27 @@ def run_model_safe(env, name, impl_recs, order, chunk=200, timeout=None):
 
     todo = [order[i:i + chunk] for i in range(0, len(order), chunk)]
     while todo:
-        batch = [todo.pop() for _ in range(min(NPROC, len(todo)))]
+        batch = [todo.pop() for _ in range(min(MODEL_PAR, len(todo)))]
         jobs = [launch(ids) for ids in batch]
         limit = timeout or (60 + max(len(ids) for ids in batch))
         rs = run_parallel([j[0] for j in jobs], limit)
         for ids, (cmdline, outp), (rc, _) in zip(batch, jobs, rs):
             if rc == 0 and os.path.exists(outp):
                 out.update(langrun.parse_records(open(outp).read().splitlines()))
-            elif len(ids) > 1:
+            elif len(ids) > 1 and not out_of_time(env):
                 todo.append(ids[:len(ids) // 2])
                 todo.append(ids[len(ids) // 2:])
     return out
 
 
-def stream_programs(env, res, only=None):
+def stream_programs(env, res, only=None, n_override=None, fixed=True):
+    if only is None and n_override is None and env.tier != "quick":
+        return batched(env, res, "programs", stream_programs, 20000, 2000)
     r = env.rng
     quick = env.tier == "quick"
     cases = []
     # generated programs: broad mix, then biased mixes
-    n = 500 if quick else 20000
+    n = 500 if n_override is None else n_override
     if only is not None:
         n = 0
         cases = [("r%d" % j, src, None) for j, src in enumerate(only)]
@@ -1086,14 +1218,14 @@ def stream_programs(env, res, only=None):
     for i in range(n):
         src, stats = langgen.generate(r, mixes[i % len(mixes)])
         cases.append(("g%d" % i, src, None))
-    for cid, src in (matrix_programs(env) if only is None else []):
+    for cid, src in (matrix_programs(env) if (only is None and fixed) else []):
         cases.append((cid, src, None))
     ex = os.path.join(common.REPO, "examples")
-    for fn in (sorted(os.listdir(ex)) if only is None else []):
+    for fn in (sorted(os.listdir(ex)) if (only is None and fixed) else []):
         if fn.endswith(".ns"):
             cases.append(("ex-" + fn[:-3], open(os.path.join(ex, fn), encoding="utf-8").read(), None))
     skipped_docs = 0
-    for sid, src, expected in (docs_snippets() if only is None else []):
+    for sid, src, expected in (docs_snippets() if (only is None and fixed) else []):
         if src is None:
             skipped_docs += 1
             continue
@@ -1207,8 +1339,8 @@ def stream_programs(env, res, only=None):
                 res["failures"].append({"key": "documented-output:" + cid, "stream": "programs", "case": src,
                                         "observed": shown, "expected": want})
     res["distinct_nontrivial"] += len(nontrivial)
-    res["extra"]["programs"] = dict(st, cases=len(cases), nontrivial=len(nontrivial),
-                                    docs_snippets_rejected=doc_rejected, docs_fragments_completed=len(completed))
+    merge_extra(res, "programs", dict(st, cases=len(cases), nontrivial=len(nontrivial),
+                                      docs_snippets_rejected=doc_rejected, docs_fragments_completed=len(completed)))
     if cases:
         res["samples"].append({"stream": "programs", "case": cases[0][1][:400], "impl": recs.get(cases[0][0], {}).get("runs", {}).get("nn")})
 
@@ -1552,6 +1684,8 @@ def accept_eval(env, name, items, spec=False, timeout=None):
         outp = os.path.join(env.work, name + ".st.out")
         open(inp, "w").write("\n".join(mlines) + "\n")
         rc, out = common.sh([common.NSMODEL, "simpletypes", inp, outp], timeout=900)
+        if rc in RESOURCE_RC:
+            raise Inconclusive("nsmodel simpletypes: timeout/killed (rc=%s) on %d cases" % (rc, len(items)))
         if rc != 0:
             raise RuntimeError("nsmodel simpletypes failed: %s" % out[-400:])
         for l in open(outp).read().splitlines():
@@ -1592,14 +1726,16 @@ def error_signature(diags):
     return sig
 
 
-def stream_accept(env, res, only=None):
+def stream_accept(env, res, only=None, n_override=None, fixed=True):
+    if only is None and n_override is None and env.tier != "quick":
+        return batched(env, res, "accept", stream_accept, 40000, 4000)
     r = env.rng
     quick = env.tier == "quick"
     items = []
-    for j, (key, src) in enumerate(ACCEPT_CORPUS if only is None else []):
+    for j, (key, src) in enumerate(ACCEPT_CORPUS if (only is None and fixed) else []):
         items.append(("k%d" % j, src))
-    n = 700 if quick else 30000
-    m = 300 if quick else 10000
+    n = 700 if n_override is None else (n_override * 3) // 4
+    m = 300 if n_override is None else n_override - n
     if only is not None:
         n = m = 0
         items = [("a%d" % j, src) for j, src in enumerate(only)]
@@ -1608,7 +1744,7 @@ def stream_accept(env, res, only=None):
     for i in range(m):
         src, _ = langgen.generate(r, langgen.Opts(p_trap=0.0, p_dead=0.0))
         items.append(("l%d" % i, src))
-    if only is None:
+    if only is None and fixed:
         # the documentation's own snippets and the examples: what they show must be accepted
         for sid, src, _ in docs_snippets():
             if src is not None:
@@ -1678,9 +1814,10 @@ def stream_accept(env, res, only=None):
         res["failures"].append({"key": key, "stream": "accept", "case": small_src, "observed": sig[:3],
                                 "original": src if len(src) < 1500 else src[:1500]})
     res["distinct_nontrivial"] += len(nontrivial)
-    res["extra"]["accept"] = dict(st, rejection_signatures=seen, distinct_typed_programs_with_functions=len(nontrivial))
+    merge_extra(res, "accept", dict(st, rejection_signatures=seen, distinct_typed_programs_with_functions=len(nontrivial)))
     if only is None:
-        res["samples"].append({"stream": "accept", "case": items[len(ACCEPT_CORPUS)][1][:600]})
+        if fixed and len(items) > len(ACCEPT_CORPUS):
+            res["samples"].append({"stream": "accept", "case": items[len(ACCEPT_CORPUS)][1][:600]})
 
 
 # ----------------------------------------------------------------------------------------------
@@ -1720,13 +1857,30 @@ def dedupe_failures(failures):
     return list(by.values())
 
 
+# thorough tier: wall-clock budget of the five streams together (seconds) and each stream's share; a
+# stream stops generating when its share (plus what earlier streams left over) is used
+THOROUGH_BUDGET = 1500
+SHARES = {"f64": 0.40, "pratt": 0.05, "template": 0.08, "programs": 0.32, "accept": 0.15}
+
+
 def correspond(env, searching=False, model=True):
     res = new_result()
     times = {}
+    t_start = time.time()
+    left = 1.0
     for name, fn in STREAMS:
         t0 = time.time()
+        if env.tier == "quick":
+            env.c01_deadline = None
+        else:
+            remaining = max(60.0, THOROUGH_BUDGET - (t0 - t_start))
+            env.c01_deadline = t0 + remaining * SHARES[name] / left
+            left = max(1e-9, left - SHARES[name])
         try:
             fn(env, res)
+        except Inconclusive as ex:       # timeout / killed: nothing decided, never a disagreement
+            env.log("C01 stream %s inconclusive: %s" % (name, ex))
+            note_inconclusive(res, name, str(ex)[:300], 0)
         except Exception as ex:          # a stream that cannot run is a tie that no longer checks
             import traceback
             env.log(traceback.format_exc())
@@ -1734,10 +1888,12 @@ def correspond(env, searching=False, model=True):
         times[name] = round(time.time() - t0, 1)
         env.log("C01 stream %s: %.1fs, %d failures, %d disagreements so far" % (
             name, times[name], len(res["failures"]), len(res["disagreements"])))
+    env.c01_deadline = None
     allf = dedupe_failures(res["failures"])
     res["failures"] = [f for f in allf if f["key"] not in OBSERVATION_KEYS]
     res["extra"]["observations"] = [f for f in allf if f["key"] in OBSERVATION_KEYS]
     res["extra"]["stream_seconds"] = times
+    res["extra"]["thorough_budget_seconds"] = THOROUGH_BUDGET if env.tier != "quick" else None
     res["disagreements"] = res["disagreements"][:40]
     return res
 
